@@ -285,3 +285,391 @@ def ob_satcache(method, tier="quick"):
         return method
 
     return explore(body, {"budget_s": 300, "max_depth": 2000, "max_failures": 3, "timeout_ms": 20000})
+
+
+# ================================================================================================
+# ModelCacheMixin in isolation (C11): finite universe of UM assignments; an expression is a value table.
+
+UM = 4          # assignments
+WV = 2          # bits of the query expression
+
+
+class MCtx:
+    """per-path semantic universe"""
+    def __init__(self, c):
+        self.c = c
+        self.G = z3.BitVec("G", UM)          # assignments satisfying the constraints
+        c.watch["G"] = self.G
+
+
+def _bit(mask, i):
+    return z3.Extract(i, i, mask) == 1
+
+
+class MH(CH):
+    """constraint handle over the UM-assignment universe"""
+    def __init__(self, mask=None, name="c"):
+        CH.n += 1
+        self.uid = CH.n
+        self.mask = mask if mask is not None else z3.BitVec(f"{name}{self.uid}", UM)
+        self.isF = z3.BoolVal(False)
+        self.annotations = ()
+        self.variables = frozenset({"i"})
+        self.depth = 3
+        self.op = "opaque"
+        cur().watch[f"{name}{self.uid}"] = self.mask
+
+
+class EH:
+    """expression handle: value of the expression under each assignment"""
+    def __init__(self, name="e"):
+        self.name = name
+        self.table = [z3.BitVec(f"{name}_at{i}", WV) for i in range(UM)]
+        for i, t in enumerate(self.table):
+            cur().watch[f"{name}_at{i}"] = t
+        self.variables = frozenset({"i"})
+        self.uid = 1000 + hash(name) % 1000
+
+    def hash(self):
+        return self.uid
+
+    def __len__(self):
+        return WV
+
+    def size(self):
+        return WV
+
+    def val(self, i):
+        return SymInt(z3.ZeroExt(proxies.get_iw() - WV, self.table[i]))
+
+    def __ne__(self, v):
+        vz = z3.Extract(WV - 1, 0, proxies._bv(v))
+        bits = [z3.If(self.table[i] != vz, z3.BitVecVal(1, 1), z3.BitVecVal(0, 1)) for i in range(UM)]
+        return MH(mask=z3.Concat(*reversed(bits)), name="ne")
+
+    def __eq__(self, v):
+        vz = z3.Extract(WV - 1, 0, proxies._bv(v))
+        bits = [z3.If(self.table[i] == vz, z3.BitVecVal(1, 1), z3.BitVecVal(0, 1)) for i in range(UM)]
+        return MH(mask=z3.Concat(*reversed(bits)), name="eq")
+
+    __hash__ = None
+
+
+def mand(*hs):
+    m = z3.BitVecVal((1 << UM) - 1, UM)
+    for h in hs:
+        m = m & h.mask
+    return MH(mask=m, name="and")
+
+
+def mor(*hs):
+    m = z3.BitVecVal(0, UM)
+    for h in hs:
+        m = m | h.mask
+    return MH(mask=m, name="or")
+
+
+class MC:
+    """contract of ModelCache: a model is one assignment of the universe; eval_ast(e) is e's value under it"""
+    def __init__(self, model):
+        self.model = model
+        self.idx = model["i"]
+        self.replacements = {}
+        self.constraint_only_replacements = {}
+
+    def __hash__(self):
+        return hash(self.idx)
+
+    def __eq__(self, o):
+        return isinstance(o, MC) and o.idx == self.idx
+
+    def eval_constraints(self, constraints):
+        ok = z3.And(*[_bit(h.mask, self.idx) for h in constraints]) if constraints else z3.BoolVal(True)
+        return bool(SymBool(ok))
+
+    def eval_list(self, asts, allow_unconstrained=True):
+        return tuple(a.val(self.idx) for a in asts)
+
+    def eval_ast(self, a, allow_unconstrained=True):
+        return a.val(self.idx)
+
+    def filter(self, variables):
+        return self
+
+
+def _skey(t, signed):
+    return t if not signed else (t ^ z3.BitVecVal(1 << (WV - 1), WV))     # order-preserving map signed -> unsigned
+
+
+class MSpec:
+    """contract of the stack below ModelCacheMixin (FullFrontend over Z3), over the finite universe"""
+
+    def _GXm(self, extra):
+        m = self.U.G
+        for h in extra:
+            m = m & h.mask
+        return m
+
+    def _add(self, constraints, invalidate_cache=True):
+        added = list(constraints)
+        self.constraints.extend(added)
+        for h in added:
+            self.U.G = self.U.G & h.mask
+        return added
+
+    def simplify(self):
+        return self.constraints
+
+    def satisfiable(self, extra_constraints=(), exact=None):
+        m = self._GXm(extra_constraints)
+        c = cur()
+        if c.branch(m != 0, "sat?"):
+            self._report_some_model(m)
+            return True
+        return False
+
+    def _pick(self, m, cond=None, label="model"):
+        """a concrete assignment index in mask m (satisfying cond), by fork"""
+        c = cur()
+        alts = [z3.And(_bit(m, i), cond(i) if cond else z3.BoolVal(True)) for i in range(UM)]
+        return c.choose(alts, label)
+
+    def _report_some_model(self, m, cond=None):
+        # the backend invokes the model callback with the model it found
+        i = self._pick(m, cond)
+        self._model_hook({"i": i})
+        return i
+
+    def _extremum(self, e, extra, signed, is_max):
+        c = cur()
+        m = self._GXm(extra)
+        if c.branch(m == 0, "unsat?"):
+            raise UnsatError("spec: unsat")
+        # the true optimum
+        def is_opt(i):
+            cmp = (lambda a, b: z3.UGE(a, b)) if is_max else (lambda a, b: z3.ULE(a, b))
+            return z3.And(*[z3.Implies(_bit(m, j), cmp(_skey(e.table[i], signed), _skey(e.table[j], signed))) for j in range(UM)])
+        i = self._pick(m, is_opt, "optimum")
+        # contract of BackendZ3._extrema: the callback receives a model realising the optimum, unless the
+        # optimum is the initial bound of the search, in which case no model may be reported at all
+        bound = (0 if not is_max else (1 << WV) - 1) if not signed else ((1 << (WV - 1)) if not is_max else (1 << (WV - 1)) - 1)
+        atbound = e.table[i] == (bound if not is_max else bound)
+        init = (0 if not signed else (1 << (WV - 1))) if not is_max else None
+        if is_max:
+            init_val = 0 if not signed else (1 << (WV - 1))      # search for max starts with lo = smallest value
+        else:
+            init_val = (1 << WV) - 1 if not signed else (1 << (WV - 1)) - 1   # search for min starts with hi = largest value
+        out = SymInt(z3.SignExt(proxies.get_iw() - WV, e.table[i])) if signed else e.val(i)   # backend: signed int for signed queries
+        if c.branch(e.table[i] == init_val, "optimum-is-initial-bound") and c.choose([True, True], "callback?") == 1:
+            return out
+        self._model_hook({"i": i})
+        return out
+
+    def min(self, e, extra_constraints=(), signed=False, exact=None):
+        return self._extremum(e, extra_constraints, signed, False)
+
+    def max(self, e, extra_constraints=(), signed=False, exact=None):
+        return self._extremum(e, extra_constraints, signed, True)
+
+    def batch_eval(self, asts, n, extra_constraints=(), exact=None):
+        c = cur()
+        m = self._GXm(extra_constraints)
+        if c.branch(m == 0, "unsat?"):
+            raise UnsatError("spec: unsat")
+        e = asts[0]
+        n = proxies.concretize(n) if not isinstance(n, int) else n
+        # a set S of assignments: all feasible, values pairwise distinct, |S| <= n, complete when |S| < n
+        subsets = [s for s in range(1, 1 << UM) if bin(s).count("1") <= n]
+        alts = []
+        for s in subsets:
+            idx = [i for i in range(UM) if s >> i & 1]
+            feas = z3.And(*[_bit(m, i) for i in idx])
+            dist = z3.Distinct(*[e.table[i] for i in idx]) if len(idx) > 1 else z3.BoolVal(True)
+            if len(idx) < n:
+                comp = z3.And(*[z3.Implies(_bit(m, j), z3.Or(*[e.table[j] == e.table[i] for i in idx])) for j in range(UM)])
+            else:
+                comp = z3.BoolVal(True)
+            alts.append(z3.And(feas, dist, comp))
+        k = c.choose(alts, "batch-result")
+        idx = [i for i in range(UM) if subsets[k] >> i & 1]
+        for i in idx:
+            self._model_hook({"i": i})
+        return [tuple(a.val(i) for a in asts) for i in idx]
+
+    def eval(self, e, n, extra_constraints=(), exact=None):
+        return tuple(r[0] for r in self.batch_eval([e], n, extra_constraints=extra_constraints))
+
+    def solution(self, e, v, extra_constraints=(), exact=None):
+        c = cur()
+        m = self._GXm(extra_constraints)
+        vz = z3.Extract(WV - 1, 0, proxies._bv(v))
+        feas = z3.Or(*[z3.And(_bit(m, i), e.table[i] == vz) for i in range(UM)])
+        if c.branch(feas, "feasible?"):
+            self._report_some_model(m, lambda i: e.table[i] == vz)
+            return True
+        return False
+
+    def _blank_copy(self, c):
+        pass
+
+    def _copy(self, c):
+        pass
+
+
+def load_modelcache():
+    if "mc" not in _cache:
+        claripy_ns = type("NS", (), {"And": staticmethod(mand), "Or": staticmethod(mor)})
+        _cache["mc"] = loader.load("claripy/frontend/mixin/model_cache_mixin.py", "claripy.frontend.mixin.model_cache_mixin",
+                                   overrides={"claripy": claripy_ns, "false": (lambda: _MFALSE), "ModelCache": MC,
+                                              "Base": EH})
+    return _cache["mc"]
+
+
+_MFALSE = object()
+FLAGS = ["_eval_exhausted", "_max_exhausted", "_min_exhausted", "_max_signed_exhausted", "_min_signed_exhausted"]
+
+
+def _values_exist(U, e, models):
+    """every feasible value of e has a cached model"""
+    return z3.And(*[z3.Implies(_bit(U.G, j), z3.Or(*[e.table[j] == e.table[m.idx] for m in models]) if models else z3.BoolVal(False))
+                    for j in range(UM)])
+
+
+def _opt_cached(U, e, models, signed, is_max):
+    """exhaustion-flag invariant: the constraints are unsatisfiable, or some cached model realises the
+    optimum over Mod(G) (then the cached answer of a later query is the true optimum)"""
+    cmp = z3.UGE if is_max else z3.ULE
+    return z3.Or(U.G == 0, *[z3.And(*[z3.Implies(_bit(U.G, j), cmp(_skey(e.table[m.idx], signed), _skey(e.table[j], signed))) for j in range(UM)])
+                             for m in models])
+
+
+def _mc_inv(c, s, e, label, assume=False):
+    U = s.U
+    models = list(s._models)
+    conds = []
+    for m in models:
+        conds.append((f"{label}/inv-models-satisfy-constraints", _bit(U.G, m.idx)))
+    if dict.__contains__(s._eval_exhausted, e.hash()):
+        conds.append((f"{label}/inv-eval-exhausted", _values_exist(U, e, models)))
+    for flag, sg, mx in (("_max_exhausted", False, True), ("_min_exhausted", False, False),
+                         ("_max_signed_exhausted", True, True), ("_min_signed_exhausted", True, False)):
+        if dict.__contains__(getattr(s, flag), e.hash()):
+            conds.append((f"{label}/inv{flag}", _opt_cached(U, e, models, sg, mx)))
+    for lab, cond in conds:
+        if assume:
+            c.assume(cond)
+        else:
+            c.check(lab, cond, "cache invariant broken: a later query would be answered wrongly from the cache", kind="invariant")
+
+
+class FlagDict(dict):
+    """exhaustion set that must not be *read* by the method under verification (it is irrelevant to it);
+    a read aborts the obligation as undecided instead of silently narrowing the explored states"""
+    def __contains__(self, k):
+        raise Undecided("an exhaustion set assumed irrelevant to this method was read")
+
+    def __getitem__(self, k):
+        raise Undecided("an exhaustion set assumed irrelevant to this method was read")
+
+
+RELEVANT = {"min": ["_eval_exhausted", "_min_exhausted", "_min_signed_exhausted"],
+            "max": ["_eval_exhausted", "_max_exhausted", "_max_signed_exhausted"],
+            "eval": ["_eval_exhausted"], "solution": [], "satisfiable": [], "_add": FLAGS}
+
+
+def _mc_state(c, H, method):
+    s = object.__new__(H)
+    s.U = MCtx(c)
+    s.constraints = []
+    s.variables = {"i"}
+    k = c.choose([True] * (1 << UM), "cached-models")
+    s._models = {MC({"i": i}) for i in range(UM) if k >> i & 1}
+    s._exhausted = False
+    e = EH("e")
+    rel = RELEVANT[method]
+    fl = c.choose([True] * (1 << len(rel)), "exhausted-flags")
+    for f in FLAGS:
+        if f in rel:
+            setattr(s, f, {e.hash(): e} if fl >> rel.index(f) & 1 else {})
+        else:
+            # irrelevant to this method: present (worst case for the invariant that must be preserved), never read
+            d = FlagDict()
+            dict.__setitem__(d, e.hash(), e)
+            setattr(s, f, d)
+    _mc_inv(c, s, e, "init", assume=True)
+    if not c.path_feasible():
+        raise PathEnd()
+    return s, e
+
+
+MC_METHODS = ["min", "max", "eval", "solution", "satisfiable", "_add"]
+
+
+def ob_modelcache(method, tier="quick"):
+    global UM
+    UM = 3 if tier == "quick" else 4       # size of the semantic universe (assignments)
+    ns = load_modelcache()
+    H = type("HM", (ns["ModelCacheMixin"], MSpec), {})
+    proxies.set_iw(12)
+
+    def body(c):
+        CH.n = 0
+        s, e = _mc_state(c, H, method)
+        U = s.U
+        nx = c.choose([True, True], "n-extra")
+        extra = tuple(MH(name="x") for _ in range(nx))
+        GX = U.G
+        for h in extra:
+            GX = GX & h.mask
+        label = f"ModelCacheMixin.{method}"
+        feas_vals = lambda vz: z3.Or(*[z3.And(_bit(GX, i), e.table[i] == vz) for i in range(UM)])
+        try:
+            if method in ("min", "max"):
+                signed = c.choose([True, True], "signed") == 1
+                r = getattr(s, method)(e, extra_constraints=extra, signed=signed)
+                rz = z3.Extract(WV - 1, 0, proxies._bv(r))
+                c.watch["result"] = rz
+                cmp = z3.UGE if method == "max" else z3.ULE
+                c.check(label + "/feasible", feas_vals(rz), f"{method}() returned a value the expression does not take")
+                c.check(label + "/optimum", z3.And(*[z3.Implies(_bit(GX, j), cmp(_skey(rz, signed), _skey(e.table[j], signed))) for j in range(UM)]),
+                        f"{method}() is not the optimum in the requested signedness")
+                rr = proxies._bv(r)
+                c.check(label + "/representation", z3.And(rr >= -(1 << (WV - 1)), rr < (1 << (WV - 1))) if signed else z3.And(rr >= 0, rr < (1 << WV)),
+                        "signed queries answer with the signed integer, unsigned ones with the bit pattern (independently of the cache)")
+            elif method == "eval":
+                n = 1 + c.choose([True, True, True], "n")
+                r = s.eval(e, n, extra_constraints=extra)
+                vals = [z3.Extract(WV - 1, 0, proxies._bv(x)) for x in r]
+                for x in vals:
+                    c.check(label + "/feasible", feas_vals(x), "eval returned an infeasible value")
+                if len(vals) > 1:
+                    c.check(label + "/distinct", z3.Distinct(*vals), "eval returned duplicates")
+                if len(vals) < n:
+                    c.check(label + "/complete", z3.And(*[z3.Implies(_bit(GX, j), z3.Or(*[e.table[j] == x for x in vals]) if vals else z3.BoolVal(False))
+                                                          for j in range(UM)]), "eval returned fewer values than requested although more exist")
+                if len(vals) > n:
+                    c.fail(label + "/count", "more values than requested")
+            elif method == "solution":
+                v = SymInt.fresh("v", 0, (1 << WV) - 1)
+                r = s.solution(e, v, extra_constraints=extra)
+                rz = proxies.zbool(r)
+                c.check(label + "/iff-feasible", rz == feas_vals(z3.Extract(WV - 1, 0, v.z)), "solution() disagrees with feasibility")
+            elif method == "satisfiable":
+                r = s.satisfiable(extra_constraints=extra)
+                c.check(label + "/exact", proxies.zbool(r) == (GX != 0), "satisfiable() disagrees with the constraint set")
+            elif method == "_add":
+                new = [MH(name="n")]
+                inval = c.choose([True, True], "invalidate_cache") == 0
+                s._add(new, invalidate_cache=inval) if inval else s._add(new)
+        except UnsatError:
+            c.check(label + "/unsat-error-only-if-unsat", GX == 0, "UnsatError raised although a model exists")
+        except (PathEnd, Undecided):
+            raise
+        except Exception as ex:  # noqa
+            import traceback
+            c.fail(label + "/raises", f"{type(ex).__name__}: {ex} " + traceback.format_exc()[-300:], kind="raises")
+            return "raised"
+        _mc_inv(c, s, e, label)
+        return method
+
+    return explore(body, {"budget_s": 900, "max_depth": 4000, "max_failures": 3, "timeout_ms": 20000, "max_paths": 2000000})
